@@ -837,6 +837,33 @@ func genIterBoundaries(g *Gen, tier string, w *bufio.Writer) {
 			}
 		}
 	}
+	// every tree depth around 32 (and the deepest navigable ones): 32-bit index arithmetic
+	for _, k := range []uint{27, 28, 29, 30, 31, 32, 33, 34, 35, 36, 37, 38, 47, 48, 61, 62} {
+		lim := uint64(1) << k
+		u64e := &Ty{Kind: KUint, N: 8}
+		for _, t := range []*Ty{
+			{Kind: KList, N: lim, Elem: &Ty{Kind: KContainer, Fields: []*Ty{u64e, u64e}}},
+			{Kind: KList, N: lim, Elem: &Ty{Kind: KList, N: 4, Elem: &Ty{Kind: KUint, N: 2}}},
+			{Kind: KList, N: lim, Elem: u64e},
+			{Kind: KList, N: lim, Elem: &Ty{Kind: KUint, N: 1}},
+			{Kind: KList, N: lim, Elem: &Ty{Kind: KBytesN, N: 32}},
+			{Kind: KBitlist, N: lim},
+		} {
+			var v *Val
+			if t.Kind == KBitlist {
+				v = &Val{Kind: VBits, Bits: g.randBits(5 + g.Intn(300))}
+			} else {
+				v = &Val{Kind: VSeq, Seq: []*Val{}}
+				for j := 0; j < 5+g.Intn(4); j++ {
+					v.Seq = append(v.Seq, g.RandVal(t.Elem, 3))
+				}
+			}
+			fmt.Fprintln(w, "begin")
+			fmt.Fprintf(w, "mk r %s %s %s\n", []string{"new", "dec"}[g.Intn(2)], t, v)
+			fmt.Fprintln(w, "iter r ro")
+			fmt.Fprintln(w, "iter r idx")
+		}
+	}
 	// hand-written length nodes: beyond the limit every iterator (and every other read that
 	// starts from Length()) reports the error for ever; inside the limit CORR only
 	for _, lim := range []uint64{1, 4, 5, 32, 33, 256, 257, 1 << 20, 1 << 40} {
